@@ -135,9 +135,28 @@ def run_mixture(case, R):
                 noise['trace'] = max(noise['trace'], float(np.abs(a['affiliation'] - b['affiliation']).max()))
         return noise
 
+    def pa_tie():
+        # built-in spatial/spectral alignment: the permutation is chosen per bin by comparing auxiliary values; exchanging the
+        # spatial models of two classes that have lost all mass in that bin (posterior mass < 1e-9) changes the auxiliary value by
+        # less than its rounding error, so rounding picks the pairing and with it the (rounding-level) posteriors from which the
+        # parameters of these empty classes are formed
+        if not (kind in models.INTEGRATION and s.opts.get('inline_permutation_alignment')):
+            return False
+        for r in res:
+            if r[0] != 'ok':
+                continue
+            for e in r[3]:
+                mass = np.asarray(e['affiliation']).sum(-1)          # (F, K)
+                if ((mass < 1e-9).sum(-1) >= 2).any():
+                    return True
+        return False
+
     def judge(monitor, value, tol, which, key, msg, **info):
         if value <= tol:
             R.ok(monitor)
+            return
+        if pa_tie():
+            R.undecided(monitor, 'built-in alignment tie between two classes without mass in one bin')
             return
         nz = replica_noise()[which]
         if value <= 100 * nz or nz > 100 * tol:
